@@ -238,6 +238,10 @@ def run(P, R, tier):
     # ------------------------------------------------------------------ C13.store / C13.keyparam
     R.rule("C13.store", "setter/getter pairs address the same storage; name setters ignore null/empty; documented defaults", minimum=30)
     R.rule("C13.keyparam", "methods taking a user-number parameter key their per-user-number look-ups on that parameter", minimum=2)
+    # getters return the last value set: a method that overrides a switch temporarily must restore it on every normal path
+    # (shared with C08.restore; a failing LoadDatabase must not leave the file switches off)
+    from . import c08 as C08
+    C08.restore_rules(P, R, RULE="C13.restore")
     check_store(P, R, rec)
 
 
